@@ -151,6 +151,9 @@ fn eval_fast(c: &mut Carriers, a: Acc, d: u16, t: u32) -> Option<i64> {
     }
 }
 
+/// Offsets of the wall clock from the instant under test (ms).
+pub const CLOCK_DELTAS_MS: [i64; 13] = [-86_400_000, -3_600_000, -31_000, -15_000, -1_000, -1, 0, 1, 1_000, 15_000, 31_000, 3_600_000, 86_400_000];
+
 fn expected(a: Acc, d: u32, t: u32) -> i64 {
     if a.minutes() {
         ref_epoch_ms(d as i64, t as i64 * 60_000)
@@ -380,14 +383,52 @@ pub fn run(ctx: &'static Ctx) -> (&'static str, Value, Vec<&'static str>) {
         *g = old.merge(st);
     });
     let s6 = hist.into_inner().unwrap_or_else(|e| e.into_inner());
-    let stats = s1.merge(s2).merge(s3).merge(s4).merge(s5).merge(s6);
+
+    // wall-clock dimension: the decoded instant must not depend on where "now" lies relative to it.
+    // For every day x 3 times x every accessor the thread's wall clock is set to the expected instant
+    // plus each delta (clamped at the epoch) before the accessor is called.
+    let t_clock_ms = [0u32, 43_200_000, 86_399_999];
+    let t_clock_min = [0u32, 720, 1439];
+    let s7: Stats = (1u32..65536)
+        .into_par_iter()
+        .fold(
+            || (Stats::new(), Carriers::new()),
+            |(mut st, mut c), d| {
+                for a in all_acc.iter().copied() {
+                    let ts: &[u32] = if a.minutes() { &t_clock_min } else { &t_clock_ms };
+                    for &t in ts {
+                        let e = expected(a, d, t);
+                        for &delta in &CLOCK_DELTAS_MS {
+                            let now_ms = (e + delta).max(0);
+                            let g = crate::clock::with_thread_now_ms(now_ms, || guarded(|| eval_fast(&mut c, a, d as u16, t)));
+                            st.evaluations += 1;
+                            if g != Caught::Ret(Some(e)) {
+                                let g2 = crate::clock::with_thread_now_ms(now_ms, || eval_decode(a, d, t));
+                                if g2 != Caught::Ret(Some(e)) {
+                                    ctx.fail(
+                                        &format!("clock:datetime_depends_on_wall_clock:{}", a.name()),
+                                        || format!("d={d} t={t} with the wall clock at instant{delta:+} ms: got {:?}, expected {e}", g2),
+                                        || json!({"op": "clock", "accessor": a.name(), "d": d, "t": t, "now_ms": now_ms}),
+                                    );
+                                }
+                            }
+                        }
+                    }
+                }
+                *st.counters.entry("wall_clock_relative_evaluations".into()).or_insert(0) += (all_acc.len() * 3 * CLOCK_DELTAS_MS.len()) as u64;
+                (st, c)
+            },
+        )
+        .map(|x| x.0)
+        .reduce(Stats::new, Stats::merge);
+    let stats = s1.merge(s2).merge(s3).merge(s4).merge(s5).merge(s6).merge(s7);
     let exhaustive_note = if thorough {
         "cross: all 65536 days x boundary ms/min (re-decoded); all 65536 minute values x D; all days x all 1440 minutes; D(16 days) x all 86.4M ms for the decode-crate accessors (every 5th ms for the volume header)"
     } else {
         "cross: all 65536 days x boundary ms/min (re-decoded); all 65536 minute values x D; all days x all 1440 minutes; 3 days x every 7th ms"
     };
     let cov = stats.coverage(
-        &format!("{exhaustive_note}. history: every ordered pair of the seven accessors called back to back on a fresh thread over 3 days x 4 raw time values each (same raw number in ms and minutes, same day / different day). non-trivial = distinct day or minute value on the re-decode path; oracle = (d-1)*86400000 + t in i64, identical for both crates"),
+        &format!("{exhaustive_note}. wall clock: all 65535 days x 3 times x 7 accessors x 13 offsets of the thread's wall clock from the instant under test (-1 d .. +1 d, incl. +-1 ms, +-1 s, +-15 s, +-31 s). history: every ordered pair of the seven accessors called back to back on a fresh thread over 3 days x 4 raw time values each (same raw number in ms and minutes, same day / different day). non-trivial = distinct day or minute value on the re-decode path; oracle = (d-1)*86400000 + t in i64, identical for both crates"),
         thorough,
         json!({"t_ms": t_ms, "t_min": t_min, "D": dset, "not_covered": "the full 65535 x 86.4M (d, ms) product"}),
     );
@@ -426,6 +467,15 @@ pub fn replay(ctx: &'static Ctx, case: &Value) {
     let a = Acc::from_name(case["accessor"].as_str().unwrap_or("")).unwrap_or_else(|| machinery("C08 replay: accessor"));
     let d = case["d"].as_u64().unwrap_or(0) as u32;
     let t = case["t"].as_u64().unwrap_or(0) as u32;
+    if case["op"].as_str() == Some("clock") {
+        let now_ms = case["now_ms"].as_i64().unwrap_or(0);
+        let got = crate::clock::with_thread_now_ms(now_ms, || eval_decode(a, d, t));
+        println!("replay {} d={d} t={t} with the wall clock at {now_ms} ms: got {:?} expected {}", a.name(), got, expected(a, d, t));
+        if got != Caught::Ret(Some(expected(a, d, t))) {
+            ctx.fail(&format!("clock:datetime_depends_on_wall_clock:{}", a.name()), || format!("{got:?}"), || case.clone());
+        }
+        return;
+    }
     let mut st = Stats::new();
     let got = eval_decode(a, d, t);
     println!("replay {} d={d} t={t}: got {:?} expected {} (in range: {})", a.name(), got, expected(a, d, t), in_range(a, d, t));
